@@ -1454,12 +1454,48 @@ def m_map_entry(ctx):
 
     def occ(s2, idx):
         e = Obj('Entry', kind='entry'); e.discr = 'Occupied'; e.attrs['map'] = s2.tr(m); e.attrs['idx'] = idx; e.attrs['key'] = s2.tr(key)
+        i = Obj('OccupiedEntry', kind='entry'); i.discr = 'Occupied'; i.attrs = dict(e.attrs); e.fields[('Occupied', 0)] = i
         return e
 
     def vac(s2):
         e = Obj('Entry', kind='entry'); e.discr = 'Vacant'; e.attrs['map'] = s2.tr(m); e.attrs['idx'] = None; e.attrs['key'] = s2.tr(key)
+        i = Obj('VacantEntry', kind='entry'); i.discr = 'Vacant'; i.attrs = dict(e.attrs); e.fields[('Vacant', 0)] = i
         return e
     return map_lookup_alts(ex, st, m, key, occ, vac)
+
+
+@model(r'(OccupiedEntry|VacantEntry)(?:::<.*>)?::(into_mut|get|get_mut|insert|key|remove|into_key)$')
+def m_entry_inner(ctx):
+    ex, st = ctx.ex, ctx.st
+    kind, op = re.search(r'(OccupiedEntry|VacantEntry)(?:::<.*>)?::(\w+)$', ctx.callee).groups()
+    e = ex.deref_val(st, ctx.args[0])
+    if not isinstance(e, Obj) or e.kind != 'entry':
+        raise MirError(f'entry op on {e!r}')
+    mp = e.attrs['map']
+    if kind == 'VacantEntry':
+        if op == 'insert':
+            mp.attrs['items'].append((e.attrs['key'], ctx.args[1]))
+            if mp.ty.startswith('BTree') or 'BTreeMap' in mp.ty: mp.attrs['unsorted'] = True
+            return [(None, Ref(('mapkv', mp, len(mp.attrs['items']) - 1, 1)))]
+        if op in ('key', 'into_key'):
+            if op == 'into_key':
+                return [(None, e.attrs['key'])]
+            h = Obj('tmp', kind='cell'); h.fields[('*', 0)] = e.attrs['key']
+            return [(None, Ref(('field', h, ('*', 0, '?'))))]
+    else:
+        idx = e.attrs['idx']
+        if op in ('into_mut', 'get', 'get_mut'):
+            return [(None, Ref(('mapkv', mp, idx, 1)))]
+        if op == 'key':
+            return [(None, Ref(('mapkv', mp, idx, 0)))]
+        if op == 'insert':
+            old = mp.attrs['items'][idx][1]
+            mp.attrs['items'][idx] = (mp.attrs['items'][idx][0], ctx.args[1])
+            return [(None, old)]
+        if op == 'remove':
+            old = mp.attrs['items'].pop(idx)[1]
+            return [(None, old)]
+    raise MirError(f'{kind}::{op}')
 
 
 @model(r'Entry<.*>::(and_modify|or_insert|or_default|or_insert_with|or_insert_with_key|key)(::<.*>)?$|Entry::(and_modify|or_insert|or_default|or_insert_with)(::<.*>)?$')
